@@ -1262,6 +1262,8 @@ class Interp:
                     raise Raised(type(ex).__name__) from None
             if short == "print":
                 return None
+            if short == "object" and not args and not kwargs:
+                return Obj(None, {"__closed__": True}, label="object()")  # a fresh sentinel: only its identity matters
             if short == "type" and len(args) == 1:
                 if isinstance(args[0], Obj):
                     return ClassRef(args[0].cls) if args[0].cls is not None else Sym("<type>")
